@@ -10,6 +10,7 @@ import (
 	"os"
 	"os/exec"
 	"path/filepath"
+	"strconv"
 	"strings"
 	"sync"
 	"syscall"
@@ -69,6 +70,9 @@ func FreePorts(n int) ([]int, error) {
 	portMu.Lock()
 	defer portMu.Unlock()
 	base := 11000 + (kit.Shard()%16)*1000 + (os.Getpid()%10)*100
+	if v, err := strconv.Atoi(os.Getenv("VERIF_PORT_OFFSET")); err == nil { // development aid: several runs side by side
+		base += v
+	}
 	var ports []int
 	for tries := 0; len(ports) < n && tries < 300; tries++ {
 		p := base + portNext%100
